@@ -11,8 +11,8 @@ from scommon import Search, seed
 import pl_common as pc
 from pl_common import pg, PipeObj
 
-S = Search('C10', 'random pipelines as in C09 with 1-3 example pumps x {torque, power, None} x slurries D50 0.1-3 mm; lengths and lifts drawn so '
-                  'that roughly half of the systems have an intersection; distinct = distinct system')
+S = Search('C10', 'random pipelines as in C09 with 1-3 example pumps x {torque, power, None} x slurries D50 0.1-3 mm; lengths (20 m - 18 km) and lifts drawn so '
+                  'that roughly half of the systems have an intersection and short torque-limited lines make the head gap jump through zero; distinct = distinct system')
 rng = random.Random(seed())
 warnings.simplefilter('ignore')
 for i in range(S.budget):
@@ -20,7 +20,8 @@ for i in range(S.budget):
     d = rng.choice([0.5, 0.6, 0.762, 0.8636])
     secs = [('P', d * rng.choice([1.0, 1.13]), 0.0, 0.5, -rng.uniform(3, 12))]
     npumps = rng.randint(1, 3)
-    total = rng.choice([rng.uniform(200, 1500), rng.uniform(1000, 6000) * npumps])
+    # short lines too: there a torque limit makes the head gap JUMP through zero (no genuine intersection)
+    total = rng.choice([rng.uniform(20, 200), rng.uniform(200, 1500), rng.uniform(1000, 6000) * npumps])
     for k in range(npipes - 1):
         if k < npumps:
             secs.append(('U', k))
